@@ -131,7 +131,13 @@ def main(argv):
         r = g.program(depth=rng.choice([1, 2, 3, 4]))
         init = tuple(("op", "store", (("slot", k),), "n", ((I(0) if t == "u" else B(b"")),)) for k, t in g.vars.items())
         if init and rng.random() < 0.9:
-            r = ("seq",) + init + (r,)
+            # make the final value of every variable OBSERVABLE: in application mode (log exists from v5) the program ends by
+            # logging each variable, so a control-flow slip that only changes how often a loop body ran shows in the trace
+            epi = ()
+            if app and version >= 5 and rng.random() < 0.7:
+                epi = tuple(("op", "log", (), "n", ((("op", "itob", (), "b", (("op", "load", (("slot", k),), "u", ()),)) if t == "u"
+                                                      else ("op", "load", (("slot", k),), "b", ())),)) for k, t in list(g.vars.items())[:6])
+            r = ("seq",) + init + (r,) + epi
         for k, v in g.hist.items():
             hist[k] = hist.get(k, 0) + v
         consider(compile_case(pt, model, r, version, app, ss, fp), 3 if thorough else 2)
@@ -183,6 +189,88 @@ def main(argv):
         prepare, recipe = store_dense_recipe(rng, version, app, low_ids=True)
         consider(compile_case(pt, model, recipe, version, app, False, None, prepare=prepare), 2)
     ck.coverage["store_dense_requested_id_programs"] = n_sd
+
+    # 5. loop-control programs: nested While/For loops over small counters whose bodies Break/Continue under conditions on the
+    #    counters (in one arm, in both arms, in nested Ifs), with statements after the loops and further loops; an accumulator is
+    #    updated in every body, logged where logs exist, and decides the verdict - so HOW OFTEN and IN WHICH ORDER bodies ran is
+    #    observable (a wrong branch polarity or a Continue bound to the wrong loop changes the accumulator)
+    def loop_ctrl(rng, version, app):
+        ld = lambda k: ("op", "load", (("slot", k),), "u", ())
+        st = lambda k, e: ("op", "store", (("slot", k),), "n", (e,))
+        add = lambda *a: ("nary", "+", "u", tuple(a))
+        mul = lambda *a: ("nary", "*", "u", tuple(a))
+        eq = lambda a, b: ("op", "==", (), "u", (a, b))
+        lt = lambda a, b: ("op", "<", (), "u", (a, b))
+        mod = lambda a, b: ("op", "%", (), "u", (a, b))
+        can_log = app and version >= 5
+        names = iter(["i", "j", "k", "m"])
+
+        def cond(cs):
+            c = rng.choice(cs)
+            kind = rng.choice(["eq", "mod", "sum", "lt", "txn"])
+            if kind == "eq":
+                return eq(ld(c), I(rng.choice([0, 1, 2, 3])))
+            if kind == "mod":
+                return eq(mod(ld(c), I(2)), I(rng.choice([0, 1])))
+            if kind == "sum":
+                return eq(add(*[ld(x) for x in cs]), I(rng.choice([1, 2, 3, 4])))
+            if kind == "lt":
+                return lt(ld(c), I(rng.choice([1, 2, 3])))
+            return lt(("op", "txn", ("Fee",), "u", ()), I(rng.choice([0, 1, 2000])))
+
+        def upd(cs):
+            return st("acc", mod(add(mul(ld("acc"), I(rng.choice([3, 5, 7]))), ld(rng.choice(cs)), I(rng.choice([1, 2, 11]))), I(1000003)))
+
+        def simple(cs):
+            if can_log and rng.random() < 0.4:
+                return ("op", "log", (), "n", (("op", "itob", (), "b", (ld("acc"),)),))
+            return upd(cs)
+
+        def ctrl():
+            return rng.choice(["break", "continue"])
+
+        def stmt(cs, depth, in_loop):
+            k = rng.choice(["simple", "simple", "ifctrl", "ifelse", "nested-if", "loop", "both-arms"] if in_loop else ["simple", "ifelse", "loop", "loop"])
+            if k == "simple":
+                return simple(cs)
+            if k == "ifctrl":
+                return ("if", cond(cs), ctrl())
+            if k == "ifelse":
+                return ("if", cond(cs), simple(cs), simple(cs))
+            if k == "nested-if":
+                return ("if", cond(cs), ("if", cond(cs), ctrl()), rng.choice([simple(cs), ("seq", simple(cs), ("if", cond(cs), ctrl()))]))
+            if k == "both-arms":
+                return ("if", cond(cs), rng.choice([ctrl(), ("seq", simple(cs), ctrl())]), rng.choice([ctrl(), simple(cs), ("seq", simple(cs), ctrl())]))
+            if depth >= 2:
+                return simple(cs)
+            return loop(cs, depth + 1)
+
+        def loop(cs, depth):
+            c = next(names, None)
+            if c is None:
+                return simple(cs)
+            cs2 = cs + [c]
+            n = rng.choice([2, 3, 4])
+            body = [stmt(cs2, depth, True) for _ in range(rng.choice([1, 2, 3]))]
+            if rng.random() < 0.5:
+                return ("for", st(c, I(0)), lt(ld(c), I(n)), st(c, add(ld(c), I(1))), ("seq",) + tuple(body))
+            # While with the increment first, so that Continue cannot spin
+            return ("seq", st(c, I(0)), ("while", lt(ld(c), I(n)), ("seq", st(c, add(ld(c), I(1)))) + tuple(body)))
+
+        top = [st("acc", I(1))] + [st(x, I(0)) for x in ["i", "j", "k", "m"]]
+        for _ in range(rng.choice([2, 3, 4])):
+            top.append(stmt(["acc"], 0, False))
+        if can_log:
+            top.append(("op", "log", (), "n", (("op", "itob", (), "b", (ld("acc"),)),)))
+        top.append(("return", eq(mod(ld("acc"), I(2)), I(rng.choice([0, 1])))))
+        return ("seq",) + tuple(top)
+
+    n_lc = 500 if thorough else 90
+    for i in range(n_lc):
+        version = rng.choice([4, 5, 6, 8, 10])
+        app = rng.random() < 0.7
+        consider(compile_case(pt, model, loop_ctrl(rng, version, app), version, app, rng.choice([None, False]), None), 2)
+    ck.coverage["loop_control_programs"] = n_lc
 
     n_cd = 400 if thorough else 60
     for i in range(n_cd):
